@@ -7,7 +7,8 @@ import os
 import shutil
 
 from .common import Case, coq_bool, coq_json, coq_list, coq_nat, coq_opt, exn_name, scratch_dir
-from .interpose import Interposer, norm_tmp
+from .interpose import norm_tmp
+from .sched import StatInterposer as Interposer     # also hooks os.stat / os.lstat (isfile, isdir, exists, lexists)
 
 PROP = "C11"
 IMPORTS = "Base Json FS Proc Crash WsNames CorrC11"
@@ -90,6 +91,7 @@ def build_template(scn, root):
     """Create the pre-state below root (not traced)."""
     import signac
 
+    _CACHES.clear()
     pa = signac.init_project(path=os.path.join(root, "pA"))
     two = scn["op"] in ("move", "clone") and not scn.get("same_project")
     pb = signac.init_project(path=os.path.join(root, "pB")) if two else None
@@ -115,6 +117,7 @@ def build_template(scn, root):
         fh.write(b"other job")
     jc = pa.open_job(SP_C).init()
     jc.doc["n"] = 1
+    stash_cache(pa)
     dest = scn["dest"]
     op = scn["op"]
     if op == "init":
@@ -136,6 +139,7 @@ def build_template(scn, root):
             jd = pb.open_job(SP_A).init()
             with open(jd.fn("mine.txt"), "wb") as fh:
                 fh.write(b"keep me")
+        stash_cache(pb)
         if dest == "emptydir":
             os.mkdir(os.path.join(pb.workspace, calc_id(SP_A)))
     if op in ("remove", "clear") and dest == "missing":
@@ -221,7 +225,49 @@ def deep_key(snap):
     return sorted((tuple(c), k, b) for c, k, b in snap if len(c) >= 3)
 
 
+# persistent state point caches (update_cache()) of the projects, written while the template was healthy and kept
+# OUT of the tree while the operation runs (a cache hit would replace the state point read of open_job(id=...));
+# every observation is made twice: without and with the cache file in place
+_CACHES = {}
+FN_CACHE = os.path.join(".signac", "statepoint_cache.json.gz")
+
+
+def stash_cache(project):
+    try:
+        project.update_cache()
+        fn = os.path.join(project.path, FN_CACHE)
+        with open(fn, "rb") as fh:
+            _CACHES[os.path.basename(project.path)] = fh.read()
+        os.remove(fn)
+    except Exception:  # noqa: BLE001 - no cache for this project then
+        _CACHES.pop(os.path.basename(project.path), None)
+
+
 def observe(root):
+    """What a fresh Project sees — with and without a persistent state point cache from before the operation.
+    The two must agree; if they do not, the observation made WITH the cache is returned (and says so)."""
+    snap, ws = observe_once(root)
+    installed = []
+    for name, blob in _CACHES.items():
+        d = os.path.join(root, name, ".signac")
+        if os.path.isdir(d) and not os.path.exists(os.path.join(root, name, FN_CACHE)):
+            with open(os.path.join(root, name, FN_CACHE), "wb") as fh:
+                fh.write(blob)
+            installed.append(os.path.join(root, name, FN_CACHE))
+    if installed:
+        try:
+            _, ws2 = observe_once(root)
+        finally:
+            for fn in installed:
+                if os.path.exists(fn):
+                    os.remove(fn)
+        if [w[:3] for w in ws2] != [w[:3] for w in ws]:
+            ws = [(n, l, r, "observed WITH a persistent state point cache written before the operation; "
+                            "without it: listed %r reported %r" % (w0[1], w0[2])) for (n, l, r, _), w0 in zip(ws2, ws)]
+    return snap, ws
+
+
+def observe_once(root):
     """What a fresh Project sees: (snapshot, [(project name, listed ids, reported ids | None)])."""
     import signac
     from signac.errors import JobsCorruptedError
@@ -456,6 +502,13 @@ def run_scenario(desc, work):
             pick = desc.get("pick")
             if pick is not None:
                 plan = [plan[i % len(plan)] for i in pick] if plan else []
+                # every stat / listdir of the run fails once (deterministically: os.path.isfile / isdir / exists
+                # swallow the error, so a failing stat silently changes a decision)
+                probes = [(s, n) for (s, n, _) in events if s[0] in ("SgStat", "SgListdir")]
+                for j, (s, n) in enumerate(probes):
+                    plan.append((s, n, "EIO"))
+                    if (j + pick[1]) % 3 == 0:
+                        plan.append((s, n, ERRNOS[1 + (j + pick[0]) % (len(ERRNOS) - 1)][0]))
                 plan = list(dict.fromkeys(plan))
         elif "fault" in probe:
             f = probe["fault"]
@@ -634,6 +687,8 @@ def scenarios():
 def gen_inputs(tier, rng):
     descs = []
     for scn in scenarios():
+        if os.environ.get("C11_ONLY") and scn["op"] not in os.environ["C11_ONLY"].split(","):
+            continue          # debugging aid only
         d = {"scn": scn, "probe": "all"}
         if tier == "quick":
             d["pick"] = [rng.randrange(10 ** 6) for _ in range(14)]
